@@ -148,4 +148,150 @@ for src, exp in CASES:
     good = (repr(r1) == repr(r2)) and len(rep) == exp
     ok &= good
     print("OK " if good else "BAD", len(rep), exp, repr(r1)[:90], "" if repr(r1) == repr(r2) else "!= " + repr(r2)[:90])
+
+# ----------------------------------------------------------------------------------------------------------------------
+# effects.py: file-name / open-mode readings (path helpers, names joined from a tuple of kinds, a name chosen by a conditional of
+# strings, helpers that get the path or the mode as an argument, loops over hoisted tuples).  Each program is RUN with recording
+# stand-ins for open / os.system / np.savetxt over several argument sets; the union of the (file pattern, access) pairs seen must
+# equal the static summary of effects.analyse (so nothing is missed and nothing invented), unless the case expects ExtractError.
+import os, re, tempfile, shutil, itertools
+sys.path.insert(0, os.path.dirname(os.path.dirname(os.path.abspath(__file__))))
+import extract
+from extractors import effects as FX
+
+ECASES = []
+def ecase(src, expect="equal"):
+    ECASES.append((src, expect))
+
+ecase("""
+def _name_of(dirname, compl):
+    "path helper"
+    return dirname + f"/compl_{compl}/previous_eqns_{compl}.txt"
+def main(dirname, compl, flag):
+    with open(_name_of(dirname, compl), "r") as f:
+        pass
+    np.savetxt(_name_of(dirname, compl), [])
+""")
+ecase("""
+def _two_step(dirname, compl):
+    stem = 'unique_equations_%i' % compl
+    full = '%s/%s.txt' % (dirname, stem)
+    return full
+def main(dirname, compl, flag):
+    p = _two_step(dirname, compl)
+    open(p, 'w').close()
+    os.system("mv " + _two_step(dirname, compl) + " " + dirname + "/temp_%i.txt" % compl)
+""")
+ecase("""
+def get(dirname, compl, unique=True):
+    prefix = "unique" if unique else "all"
+    fn = dirname + "/compl_%i/%s_equations_%i.txt" % (compl, prefix, compl)
+    with open(fn, "r") as f:
+        pass
+def main(dirname, compl, flag):
+    get(dirname, compl)
+    get(dirname, compl, unique=False)
+""")
+ecase("""
+def main(dirname, compl, flag):
+    prefix = "unique" if flag else "all"
+    with open(dirname + "/%s_equations_%i.txt" % (prefix, compl)) as f:
+        pass
+    with open(dirname + ("/x_%i.txt" if flag else "/y_%i.txt") % compl, 'a') as f:
+        pass
+""")
+ecase("""
+def _append_all(fname, items, mode):
+    with open(fname, mode) as f:
+        for it in items:
+            pass
+def main(dirname, compl, flag):
+    kinds = ('orig', 'extra')
+    for stem in ('trees', 'aifeyn'):
+        for kind in kinds:
+            open('%s/%s_%s_%i.txt' % (dirname, kind, stem, compl), 'w').close()
+    for i in range(3):
+        for kind in kinds:
+            _append_all(dirname + '/%s_trees_%i.txt' % (kind, compl), [], 'a')
+        for kind in kinds:
+            with open(dirname + '/%s_aifeyn_%i.txt' % (kind, compl), 'a') as f:
+                pass
+    for stem in ('trees', 'aifeyn'):
+        parts = ['%s/%s_%s_%i.txt' % (dirname, kind, stem, compl) for kind in kinds]
+        os.system('cat ' + ' '.join(parts) + ' > %s/%s_%i.txt' % (dirname, stem, compl))
+""")
+ecase("""
+def _open_each(dirname, compl, names, mode='w'):
+    for nm in names:
+        open(os.path.join(dirname, "{}_{}.txt".format(nm, compl)), mode).close()
+def main(dirname, compl, flag):
+    _open_each(dirname, compl, ('a_trees', 'b_trees'))
+    _open_each(dirname, compl, ['a_trees'], mode='a')
+""")
+ecase("""
+def main(dirname, compl, flag):
+    np.savetxt(dirname + ("/x_%i.txt" if flag else "/y_%i.txt") % compl, [])
+""", "error")       # the file WRITTEN is chosen at run time: fail closed
+ecase("""
+def _mode(i):
+    return 'w' if i == 0 else 'a'
+def main(dirname, compl, flag):
+    for i in range(2):
+        with open(dirname + '/t_%i.txt' % compl, _mode(i)) as f:
+            pass
+""", "error")       # a mode computed by a helper: fail closed
+
+
+class _F(object):
+    def __enter__(self): return self
+    def __exit__(self, *a): return False
+    def close(self): pass
+
+
+def _dynamic(src):
+    seen = []
+    def fopen(path, mode="r", **kw):
+        m = kw.get("mode", mode).replace("b", "").replace("t", "") or "r"
+        seen.append((path, m)); return _F()
+    class _Os(object):
+        path = os.path
+        @staticmethod
+        def system(cmd):
+            for k, a in FX._shell(cmd, "dyn", 0):
+                seen.append((k, a))
+    class _Np(object):
+        @staticmethod
+        def savetxt(path, *a, **k): seen.append((path, "w"))
+        @staticmethod
+        def loadtxt(path, *a, **k): seen.append((path, "r"))
+    g = dict(open=fopen, os=_Os, np=_Np)
+    exec(compile(src, "<eff>", "exec"), g)
+    for compl, flag in itertools.product((3, 12), (True, False)):
+        g["main"]("/lib/run_7", compl, flag)
+    return set((re.sub(r"\d+", "#", p.split("/")[-1]), a) for p, a in seen)
+
+
+for src, expect in ECASES:
+    d = tempfile.mkdtemp(prefix="c16_selftest_")
+    try:
+        for rel in FX.FILES + [FX.TABLE_FILE]:
+            os.makedirs(os.path.dirname(os.path.join(d, rel)), exist_ok=True)
+            open(os.path.join(d, rel), "w").write("sympy_locs = {}\n" if rel == FX.TABLE_FILE else "")
+        open(os.path.join(d, FX.FILES[0]), "w").write("import os\nimport numpy as np\n" + src)
+        try:
+            static = set((k, a) for _, _, k, a in FX.analyse(d)[0])
+            err = None
+        except extract.ExtractError as e:
+            static, err = None, str(e)
+        if expect == "error":
+            good = err is not None
+            print("OK " if good else "BAD", "effects: fails closed" if good else "effects: expected ExtractError, got %s" % sorted(static), (err or "")[:70])
+        else:
+            dyn = _dynamic(src)
+            good = err is None and static == dyn
+            print("OK " if good else "BAD", "effects: static == dynamic (%d pairs)" % len(dyn) if good else
+                  "effects: %s static-only %s dynamic-only %s" % (err, sorted((static or set()) - dyn), sorted(dyn - (static or set()))))
+        ok &= good
+    finally:
+        shutil.rmtree(d, ignore_errors=True)
 print("ALL OK" if ok else "FAILURES")
